@@ -90,6 +90,11 @@ func (f *Defmacro) Call(s *slip.Scope, args slip.List, depth int) (result slip.O
 		}
 	}
 	slip.CurrentPackage.DefLambda(low, lc, fc, slip.MacroSymbol)
+	if shared := slip.CurrentPackage.Lambda(low); shared != nil {
+		// Callers compiled from now on get the lambda that is registered, the
+		// same one earlier callers hold and a later redefinition updates.
+		lc = shared
+	}
 	if 0 < len(s.Parents()) {
 		lc.Closure = s
 	}
